@@ -1,7 +1,10 @@
 #!/bin/sh
 # tools/thorough_all.sh: every registered thorough command once, in a scratch copy of /verif (evidence of /verif untouched);
-# one line per property with the real exit status of ./check
+# one line per property with the real exit status of ./check.  /repo is read through a detached worktree of its HEAD, so
+# that editing /repo meanwhile cannot reach a run which takes an hour (a half-edited import once showed as a checker crash)
 S=/tmp/thor.$$; rm -rf $S; mkdir -p $S
+git -C /repo worktree prune; git -C /repo worktree add --detach $S/repo HEAD -q || exit 2
+export PYVC_REPO=$S/repo
 rsync -a --exclude .git --exclude .venv --exclude .tmp --exclude replays /verif/ $S/verif/
 ln -s /verif/.venv $S/verif/.venv; mkdir -p $S/verif/.tmp $S/verif/replays
 cd $S/verif
@@ -10,4 +13,4 @@ for p in C01 C02 C03 C04 C05 C06 C07 C08 C09 C10 C11 C12 C13 C14 C15 C16 C17 C18
   grep -a -E "^VIOLATION|^UNDECIDED|CRASH|UNSOUND|tier=" $S/out.$p | cut -c1-220
   echo "  exit=$rc for $p"
 done
-rm -rf $S
+git -C /repo worktree remove --force $S/repo; rm -rf $S
